@@ -154,6 +154,19 @@ def rule_keep(ref_vals):
     return out[0]
 
 
+VAULT0 = None
+
+
+def vault0():
+    """the preset tables as they are at import time (a constructor must never change them)"""
+    global VAULT0
+    if VAULT0 is None:
+        import copy
+        from outrank.feature_transformations import feature_transformer_vault as vault
+        VAULT0 = copy.deepcopy(vault._tr_global_namespace)
+    return VAULT0
+
+
 def run_transform(cells, preset):
     import pandas as pd
     from outrank.feature_transformations.ranking_transformers import FeatureTransformerGeneric
@@ -178,8 +191,7 @@ def judge_column(cells, preset, st, count_nontrivial=True):
     if list(out.columns[:2]) != ['n', 'label'] or list(out['n']) != list(cells):
         fails.append(({'kind': 'original_changed'}, 'original columns changed'))
     emitted = {c[len('n'):]: out[c].tolist() for c in out.columns[2:] if str(c).startswith('n_tr')}
-    from outrank.feature_transformations import feature_transformer_vault as vault
-    expected_names = list(vault._tr_global_namespace[preset].keys()) if ',' not in preset else None
+    expected_names = list(vault0()[preset].keys()) if ',' not in preset else None
     names = expected_names if expected_names is not None else list(tr.transformer_collection.keys())
     for name in names:
         f = formula_for(name)
@@ -277,28 +289,33 @@ def _presets_job(_):
     from outrank.feature_transformations import feature_transformer_vault as vault
     from outrank.feature_transformations.ranking_transformers import FeatureTransformerGeneric
     st = Stats()
-    names = list(vault._tr_global_namespace.keys())
-    for r in (1, 2, 3):
-        for combo in itertools.product(names, repeat=r):
-            preset = ','.join(combo)
-            ok, tr = safe(FeatureTransformerGeneric, {'n'}, preset)
-            st.count('evaluations')
-            st.count('preset_lists')
-            if len(set(combo)) > 1:
-                st.count('nontrivial')
-            case = {'kind': 'preset', 'preset': preset}
-            if not ok:
-                st.violation(case, f'preset list {preset!r} raised {tr}', {'kind': 'preset_exception'})
-                continue
-            exp = {}
-            for nm in combo:
-                exp.update(vault._tr_global_namespace[nm])
-            got = dict(tr.transformer_collection)
-            if set(got) != set(exp):
-                st.violation(case, f'preset list {preset!r} selects {len(got)} transformers, the union of the named presets has {len(exp)}; missing {sorted(set(exp) - set(got))[:3]}',
-                             {'kind': 'preset_union'})
-            elif any(got[k] != exp[k] for k in exp):
-                st.violation(case, f'preset list {preset!r}: formula text differs from the presets', {'kind': 'preset_formula'})
+    V0 = vault0()
+    names = list(V0.keys())
+    lists = [c for r in (1, 2, 3) for c in itertools.product(names, repeat=r)] + [(n_,) for n_ in names]   # single presets again AFTER all lists
+    for combo in lists:
+        preset = ','.join(combo)
+        ok, tr = safe(FeatureTransformerGeneric, {'n'}, preset)
+        st.count('evaluations')
+        st.count('preset_lists')
+        if len(set(combo)) > 1:
+            st.count('nontrivial')
+        case = {'kind': 'preset', 'preset': preset}
+        if not ok:
+            st.violation(case, f'preset list {preset!r} raised {tr}', {'kind': 'preset_exception'})
+            continue
+        exp = {}
+        for nm in combo:
+            exp.update(V0[nm])
+        got = dict(tr.transformer_collection)
+        if set(got) != set(exp):
+            st.violation(case, f'preset list {preset!r} selects {len(got)} transformers, the union of the named presets has {len(exp)}; missing {sorted(set(exp) - set(got))[:3]} extra {sorted(set(got) - set(exp))[:3]}',
+                         {'kind': 'preset_union'})
+        elif any(got[k] != exp[k] for k in exp):
+            st.violation(case, f'preset list {preset!r}: formula text differs from the presets', {'kind': 'preset_formula'})
+    now = {k: dict(v) for k, v in vault._tr_global_namespace.items()}
+    if now != {k: dict(v) for k, v in V0.items()}:
+        changed = [k for k in V0 if now.get(k) != dict(V0[k])]
+        st.violation({'kind': 'preset', 'preset': 'minimal,default|minimal'}, f'constructing transformers changed the shared preset tables {changed}', {'kind': 'preset_tables_mutated'})
     st.sample({'kind': 'preset', 'preset': 'default,minimal'})
     return st
 
@@ -309,6 +326,7 @@ def _dispatch(item):
 
 
 def run(ctx):
+    vault0()
     jobs = []
     n3 = 7 + 49 + 343
     n4 = n3 + 2401
@@ -338,11 +356,6 @@ def eval_case(case):
     if case['kind'] == 'preset':
         from outrank.feature_transformations import feature_transformer_vault as vault
         from outrank.feature_transformations.ranking_transformers import FeatureTransformerGeneric
-        combo = case['preset'].split(',')
-        tr = FeatureTransformerGeneric({'n'}, case['preset'])
-        exp = {}
-        for nm in combo:
-            exp.update(vault._tr_global_namespace[nm])
-        got = dict(tr.transformer_collection)
-        return [] if set(got) == set(exp) else [f'{len(got)} transformers selected, union has {len(exp)}']
+        st = _presets_job(None)
+        return [v['what'] for v in st.violations]
     return [msg for sig, msg in judge_column(case['cells'], case['preset'], st)]
